@@ -1,7 +1,7 @@
 (* Correspondence obligations for C13: the model's per-thread results and parse counts on the
    (configuration, program, schedule) triples that the harness drove the real goroutines through. *)
 From Coq Require Import ZArith NArith Arith Bool List.
-From PcoreV Require Import Model.Base Model.Conc Model.ConcLazy Model.ConcReg.
+From PcoreV Require Import Model.Base Model.Conc Model.ConcLazy Model.ConcReg Model.ConcDisc.
 Import ListNotations.
 
 Definition val_eqb (a b : val) : bool :=
@@ -94,3 +94,29 @@ Definition reg_check (c : reg_case) : bool :=
   let st := rexec p s in
   rall_done st (length p) && Nat.eqb (length o) (length p) && reg_threads (rs_log st) 0 o.
 Definition reg_mismatches (cs : list reg_case) : list N := failing reg_check cs.
+
+
+(* ---- Discover with a predicate that asks the loader (Model/ConcDisc.v, the code: CbOutside): per thread the results in
+   program order; the names of a Discover as a set (Go returns them sorted) *)
+Definition same_keys (a b : list key) : bool :=
+  Nat.eqb (length a) (length b) && forallb (fun x => existsb (N.eqb x) b) a && forallb (fun x => existsb (N.eqb x) a) b.
+Definition dres_eqb (m o : dres) : bool :=
+  match m, o with
+  | DNames a, DNames b => same_keys a b
+  | DDefined x, DDefined y => val_eqb x y
+  | DBool x, DBool y => Bool.eqb x y
+  | DErr, DErr => true
+  | DFault, DFault => true
+  | _, _ => false
+  end.
+Definition disc_case := (config * dprog * sched * list (list dres))%type.
+Fixpoint disc_threads (log : list devent) (t : nat) (os : list (list dres)) : bool :=
+  match os with
+  | [] => true
+  | o :: os' => list_eqb dres_eqb (dresults_of t log) o && disc_threads log (S t) os'
+  end.
+Definition disc_check (c : disc_case) : bool :=
+  let '(cfg, p, s, o) := c in
+  let st := dexec CbOutside cfg p s in
+  dall_done st (length p) && Nat.eqb (length o) (length p) && disc_threads (ds_log st) 0 o.
+Definition disc_mismatches (cs : list disc_case) : list N := failing disc_check cs.
